@@ -44,32 +44,40 @@ Proof.
   destruct G as [G _]. apply eval_opt_sound; auto.
 Qed.
 
-(* the hypotheses of the inlining theorem are satisfiable: the repository's example, a later
-   definition calling an earlier one, a key passing through and a binder shadowing {0} *)
+(* the hypotheses of the inlining theorem are satisfiable: a later definition calling an earlier
+   one, a key passing through and a binder shadowing {0} *)
 Local Open Scope string_scope.
-Definition ex_text : bytes :=
-  (of_str "double {sumi {0} {0}}" ++ [10%N] ++ of_str "quad {double {double {0}}}{k}{@map {1} x{0}}" ++ [10%N])%list.
-Definition ex_env : env := fst (fst (load_file 1000 ex_text)).
-Definition ex_body : tmpl :=
-  match compile (fenv_of true 1000 ex_env) (of_str "{double {double {0}}}{k}{@map {1} x{0}}") with
-  | Ok (t, _) => t | Panic => [] end.
+Definition b_double : tmpl := [PCall (of_str "sumi") [[PMatch 0]; [PMatch 0]]].
+Definition env1 : env := (of_str "double", FUser (eval_tmpl true 1000 std_env b_double)) :: std_env.
+Definition b_quad : tmpl :=
+  [PCall (of_str "double") [[PCall (of_str "double") [[PMatch 0]]]]; PKey (of_str "k");
+   PCall (of_str "@map") [[PMatch 1]; [PLit (of_str "x"); PMatch 0]]].
+Definition env2 : env := (of_str "quad", FUser (eval_tmpl true 1000 env1 b_quad)) :: env1.
 Definition ex_args : list tmpl := [[PLit (of_str "2"); PMatch 1]; [PCall (of_str "@") [[PLit (of_str "a")]; [PMatch 0]]]].
 
-Example call_inline_example o :
-  meq (eval_tmpl o 1000 ex_env [PCall (of_str "quad") ex_args])
-      (eval_tmpl o 1000 ex_env (subst_tmpl ex_env ex_args ex_body)).
+Lemma env2_good : env_good 1000 env2 /\ env_ntm 1000 env2.
 Proof.
-  pose proof (load_file_good 1000 ex_text) as G.
-  change (load_file 1000 ex_text) with (ex_env, snd (fst (load_file 1000 ex_text)), snd (load_file 1000 ex_text)) in G.
-  destruct G as [G N].
-  eapply (call_inline 1000 ex_env G N ex_args o (of_str "quad")); [reflexivity| |].
-  - apply meq_refl.
+  assert (G1 : env_good 1000 env1).
+  { apply env_good_cons; [|apply std_env_good]. apply ufun_good, eval_kg, std_env_good. }
+  split.
+  - apply env_good_cons; auto. apply ufun_good, eval_kg; auto.
+  - apply env_ntm_cons_user, env_ntm_cons_user, std_env_ntm.
+Qed.
+
+Example call_inline_example o :
+  meq (eval_tmpl o 1000 env2 [PCall (of_str "quad") ex_args])
+      (eval_tmpl o 1000 env2 (subst_tmpl env2 ex_args b_quad)).
+Proof.
+  destruct env2_good as [G N].
+  assert (Hb : eval_tmpl true 1000 env1 b_quad = eval_tmpl true 1000 env2 b_quad) by (vm_compute; reflexivity).
+  eapply (call_inline 1000 env2 G N ex_args o (of_str "quad") _ b_quad); [reflexivity| |].
+  - rewrite <- Hb. apply meq_refl.
   - vm_compute. repeat split; intros; try discriminate.
 Qed.
 
 (* the substituted body really is what one would write by hand *)
 Example subst_example :
-  subst_tmpl ex_env ex_args ex_body =
+  subst_tmpl env2 ex_args b_quad =
   [PCall (of_str "double") [[PCall (of_str "double") [[PLit (of_str "2"); PMatch 1]]]]; PKey (of_str "k");
    PCall (of_str "@map") [[PCall (of_str "@") [[PLit (of_str "a")]; [PMatch 0]]]; [PLit (of_str "x"); PMatch 0]]].
 Proof. vm_compute. reflexivity. Qed.
